@@ -94,6 +94,7 @@ class FilterEdge(StaticGraph, StaticEdge):
 
     def _evaluate(self, inputs: Sequence) -> Tuple:
         keys, = inputs
-        return tuple(filter(self.graph, tqdm(
+        # not `filter(...)`: a StopIteration raised by the predicate would silently end the iteration
+        return tuple([key for key in tqdm(
             keys, desc='Filtering', disable=not self.verbose,
-        )))
+        ) if self.graph(key)])
